@@ -635,7 +635,8 @@ pub fn custom(tr: &mut Trace, rng: &mut Rng, thorough: bool) {
         }
     }
     // query side: every entry point, failure injected at every call index of a batch
-    for (dynamic, trailing) in [(false, vec![]), (false, vec![2usize, 3]), (true, vec![3])] {
+    // (incl. data with a zero-length trailing axis: no lanes, but every query must still reach the strategy)
+    for (dynamic, trailing) in [(false, vec![]), (false, vec![2usize, 3]), (true, vec![3]), (false, vec![0usize]), (false, vec![2usize, 0])] {
         tr.reset("custom-query");
         let n = 4;
         let x: Vec<f64> = gen::axis::<f64>(rng, n, "random");
@@ -669,7 +670,7 @@ pub fn custom(tr: &mut Trace, rng: &mut Rng, thorough: bool) {
             }
         }
     }
-    for (dynamic, trailing) in [(false, vec![]), (false, vec![2usize]), (true, vec![2, 2])] {
+    for (dynamic, trailing) in [(false, vec![]), (false, vec![2usize]), (true, vec![2, 2]), (false, vec![0usize])] {
         tr.reset("custom-query-2d");
         let (nx, ny) = (3usize, 4usize);
         let x: Vec<f64> = gen::axis::<f64>(rng, nx, "random");
@@ -786,15 +787,16 @@ fn casts_for<T: El>(tr: &mut Trace, rng: &mut Rng, thorough: bool) {
     let stores = [Store::Owned, Store::View, Store::Shared];
     let qtags: [(&'static str, Vec<usize>); 6] =
         [("Ix0", vec![]), ("Ix1", vec![3]), ("IxDyn", vec![3]), ("Ix2", vec![3, 1]), ("Ix3", vec![1, 3, 1]), ("IxDyn", vec![1, 3])];
-    // 1-D: data Ix1..Ix6, IxDyn
-    for drank in 1..=7usize {
+    // 1-D: data Ix1..Ix6, IxDyn; an 8th round: 2-d data with a zero-length trailing axis (no lanes: the fast path
+    // and the general path must still agree on whether the batch is answered)
+    for drank in 1..=8usize {
         let dynamic = drank == 7;
-        let rank = if dynamic { 3 } else { drank };
+        let rank = if dynamic { 3 } else if drank == 8 { 2 } else { drank };
         tr.reset("casts-1d");
         let n = 4usize;
         let mut shape = vec![n];
         for k in 1..rank {
-            shape.push(if k == 1 { 2 } else { 1 });
+            shape.push(if drank == 8 { 0 } else if k == 1 { 2 } else { 1 });
         }
         let x: Vec<T> = (0..n).map(|i| T::of_f64(2.0 * i as f64 + 1.0)).collect();
         let data = ArrayD::from_shape_vec(IxDyn(&shape), (0..shape.iter().product::<usize>()).map(|_| T::of_f64(rng.range(-40, 40) as f64)).collect()).unwrap();
@@ -838,15 +840,15 @@ fn casts_for<T: El>(tr: &mut Trace, rng: &mut Rng, thorough: bool) {
             }
         }
     }
-    // 2-D: data Ix2..Ix6, IxDyn
-    for drank in 2..=7usize {
+    // 2-D: data Ix2..Ix6, IxDyn; an 8th round with a zero-length trailing axis
+    for drank in 2..=8usize {
         let dynamic = drank == 7;
-        let rank = if dynamic { 3 } else { drank };
+        let rank = if dynamic { 3 } else if drank == 8 { 3 } else { drank };
         tr.reset("casts-2d");
         let (nx, ny) = (3usize, 2usize);
         let mut shape = vec![nx, ny];
         for k in 2..rank {
-            shape.push(if k == 2 { 2 } else { 1 });
+            shape.push(if drank == 8 { 0 } else if k == 2 { 2 } else { 1 });
         }
         let x: Vec<T> = (0..nx).map(|i| T::of_f64(2.0 * i as f64)).collect();
         let y: Vec<T> = (0..ny).map(|i| T::of_f64(4.0 * i as f64 - 2.0)).collect();
